@@ -1,59 +1,782 @@
-// Package c16 is the harness for property C16 (runs the real kapacitor code, prints op lines).
+// Package c16 is the harness for property C16 (batch query ranges and ticks). It runs the REAL kapacitor
+// code in-process and prints op lines with what the implementation did:
+//
+//	splice   kapacitor.NewQuery / SetStartTime / SetStopTime / String / Clone on generated WHERE clauses; every
+//	         issued text is re-parsed with the real influxql parser and printed as a condition tree
+//	tick     timeTicker.Next (through the hook VerifNewTimeTicker)
+//	livereal the real aligned timeTicker.Start against the wall clock (only wall-clock independent facts printed)
+//	sched    a real batch task on a real TaskMaster: ExecutingTask.BatchQueries for a span (historical list),
+//	         then StartBatching with a fake InfluxDB client and injected tick times (live list), then
+//	         BatchQueries again (state left behind by the live ticks)
 package c16
 
 import (
+	"context"
+	"errors"
 	"fmt"
+	"hash/crc32"
+	"os"
+	"sort"
+	"strconv"
+	"strings"
+	"sync"
 	"time"
 
+	"github.com/influxdata/flux"
+	imodels "github.com/influxdata/influxdb/models"
 	"github.com/influxdata/influxql"
 	"github.com/influxdata/kapacitor"
+	"github.com/influxdata/kapacitor/influxdb"
+
 	"verifharness/kit"
 )
 
-// Run is replaced by the property's harness.
-func Run(args []string) int {
-	q, err := kapacitor.NewQuery(`SELECT v FROM "db"."rp".m WHERE a = 1 OR b = 2 AND time >= '2020-01-01T00:00:00Z'`)
-	fmt.Println(err)
-	q.SetStartTime(time.Unix(100, 0))
-	q.SetStopTime(time.Unix(200, 5))
-	s := q.String()
-	fmt.Println(s)
-	st, err := influxql.ParseStatement(s)
-	fmt.Println(err)
-	sel := st.(*influxql.SelectStatement)
-	influxql.WalkFunc(sel.Condition, func(n influxql.Node) {
-		fmt.Printf("%T %v\n", n, n)
-	})
-	e, tr, err := influxql.ConditionExpr(sel.Condition, nil)
-	fmt.Println(e, tr, err)
-	c, err := q.Clone()
-	fmt.Println(c, err)
+// ---------------------------------------------------------------------------------------------
+// atoms: model token <-> InfluxQL text
 
-	tm, err := kit.NewTM(kit.TMOpts{})
-	fmt.Println(err)
-	defer tm.Close()
-	script := `batch
-	|query('SELECT mean(v) FROM "db"."rp".m WHERE a = 1')
-		.period(10s).every(10s).align().groupBy(time(4s), 'host').alignGroup().fill(0)
-	@bsink()
-`
-	task, err := tm.TM.NewTask("t1", script, kapacitor.BatchTask, []kapacitor.DBRP{{Database: "db", RetentionPolicy: "rp"}}, 0, nil)
-	fmt.Println(err)
-	et, err := kapacitor.NewExecutingTask(tm.TM, task)
-	fmt.Println(err)
-	bq, err := et.BatchQueries(time.Unix(1000000007, 0), time.Unix(1000000047, 0))
-	fmt.Println(err)
-	for _, b := range bq {
-		for _, q := range b.Queries {
-			fmt.Println(q.String())
+var atomSrc = map[int]string{
+	1:   `"a" = 1`,
+	2:   `"b" > 2.5`,
+	3:   `"host" = 'x'`,
+	4:   `"host" =~ /^s.*/`,
+	5:   `"a" + 2 * "b" > 3`,
+	6:   `"dc" <> 'slc'`,
+	7:   `"v" <= -4`,
+	8:   `"f" = true`,
+	9:   `("a" + 1) * 2 >= "b"`,
+	10:  `"r" !~ /x|y/`,
+	11:  `"n" = 'a AND b OR c'`,
+	12:  `"a" % 3 = 1`,
+	13:  `true`,
+	100: `time > now() - 1h`,
+	101: `time <= now()`,
+	102: `'2020-01-01T00:00:00Z' <= time`,
+}
+
+var atomByText = map[string]int{}
+var atomInit sync.Once
+
+func initAtoms() {
+	atomInit.Do(func() {
+		for id, src := range atomSrc {
+			e, err := influxql.ParseExpr(src)
+			if err != nil {
+				panic(fmt.Sprintf("atom %d: %v", id, err))
+			}
+			atomByText[e.String()] = id
+		}
+	})
+}
+
+var topName = map[influxql.Token]string{influxql.GTE: "ge", influxql.LT: "lt", influxql.GT: "gt", influxql.LTE: "le", influxql.EQ: "eq", influxql.NEQ: "ne"}
+var topText = map[string]string{"ge": ">=", "lt": "<", "gt": ">", "le": "<=", "eq": "=", "ne": "!="}
+
+func timeText(ns int64) string {
+	return "'" + time.Unix(0, ns).UTC().Format(time.RFC3339Nano) + "'"
+}
+
+// tokText renders one model token as InfluxQL text.
+func tokText(t string) (string, bool) {
+	switch {
+	case t == "and":
+		return "AND", true
+	case t == "or":
+		return "OR", true
+	case t == "lp":
+		return "(", true
+	case t == "rp":
+		return ")", true
+	case strings.HasPrefix(t, "A"):
+		id, err := strconv.Atoi(t[1:])
+		src, ok := atomSrc[id]
+		return src, err == nil && ok
+	case strings.HasPrefix(t, "T") && len(t) > 3:
+		op, ok := topText[t[1:3]]
+		ns, err := strconv.ParseInt(t[3:], 10, 64)
+		return "time " + op + " " + timeText(ns), ok && err == nil
+	}
+	return "", false
+}
+
+func condText(toks string) (string, bool) {
+	if toks == "-" {
+		return "", true
+	}
+	var parts []string
+	for _, t := range strings.Split(toks, ",") {
+		s, ok := tokText(t)
+		if !ok {
+			return "", false
+		}
+		parts = append(parts, s)
+	}
+	return strings.Join(parts, " "), true
+}
+
+// treeOf prints a parsed InfluxQL condition as a prefix tree over model atoms.
+func treeOf(e influxql.Expr) []string {
+	initAtoms()
+	switch x := e.(type) {
+	case nil:
+		return []string{"-"}
+	case *influxql.ParenExpr:
+		// a parenthesised boolean expression; parentheses inside an atom are part of its text
+		if isBool(x.Expr) {
+			return append([]string{"P"}, treeOf(x.Expr)...)
+		}
+	case *influxql.BinaryExpr:
+		if x.Op == influxql.AND || x.Op == influxql.OR {
+			name := "and"
+			if x.Op == influxql.OR {
+				name = "or"
+			}
+			out := []string{name}
+			out = append(out, treeOf(x.LHS)...)
+			return append(out, treeOf(x.RHS)...)
+		}
+		if v, ok := x.LHS.(*influxql.VarRef); ok && v.Val == "time" {
+			if op, ok := topName[x.Op]; ok {
+				switch r := x.RHS.(type) {
+				case *influxql.StringLiteral:
+					if r.IsTimeLiteral() {
+						if tl, err := r.ToTimeLiteral(time.UTC); err == nil {
+							return []string{fmt.Sprintf("T%s%d", op, tl.Val.UnixNano())}
+						}
+					}
+				case *influxql.TimeLiteral:
+					return []string{fmt.Sprintf("T%s%d", op, r.Val.UnixNano())}
+				}
+			}
 		}
 	}
-	_, err = et.BatchQueries(time.Unix(1000000007, 0), time.Time{})
-	task, err = tm.TM.NewTask("t2", script, kapacitor.BatchTask, []kapacitor.DBRP{{Database: "dbx", RetentionPolicy: "rp"}}, 0, nil)
-	fmt.Println(err)
-	et, err = kapacitor.NewExecutingTask(tm.TM, task)
-	fmt.Println(err)
-	_, err = et.BatchQueries(time.Unix(1000000007, 0), time.Unix(1000000047, 0))
-	fmt.Println(err)
+	if id, ok := atomByText[e.String()]; ok {
+		return []string{fmt.Sprintf("A%d", id)}
+	}
+	return []string{"X" + kit.Esc(e.String())}
+}
+
+// isBool: the expression is a boolean combination or a comparison (so a ParenExpr around it is a
+// ParenExpr of the condition tree, not part of an arithmetic operand).
+func isBool(e influxql.Expr) bool {
+	switch x := e.(type) {
+	case *influxql.ParenExpr:
+		return isBool(x.Expr)
+	case *influxql.BinaryExpr:
+		switch x.Op {
+		case influxql.AND, influxql.OR, influxql.EQ, influxql.NEQ, influxql.LT, influxql.LTE, influxql.GT, influxql.GTE, influxql.EQREGEX, influxql.NEQREGEX:
+			return true
+		}
+		return false
+	case *influxql.BooleanLiteral:
+		return true
+	}
+	return false
+}
+
+func durOf(e influxql.Expr) (int64, bool) {
+	switch x := influxql.Reduce(e, nil).(type) {
+	case *influxql.DurationLiteral:
+		return int64(x.Val), true
+	case *influxql.IntegerLiteral:
+		return x.Val, true
+	}
+	return 0, false
+}
+
+// encQuery re-parses an issued query text the way the database would and prints what it says:
+// <condition tree>;<group by time len:offset | ->;<crc32 of the text>, plus its sources.
+func encQuery(text string) (enc string, srcs []string) {
+	st, err := influxql.ParseStatement(text)
+	if err != nil {
+		return "unparseable", nil
+	}
+	sel, ok := st.(*influxql.SelectStatement)
+	if !ok {
+		return "notselect", nil
+	}
+	gb := "-"
+	for _, d := range sel.Dimensions {
+		if call, ok := d.Expr.(*influxql.Call); ok && call.Name == "time" && len(call.Args) >= 1 {
+			l, ok1 := durOf(call.Args[0])
+			var o int64
+			ok2 := true
+			if len(call.Args) > 1 {
+				o, ok2 = durOf(call.Args[1])
+			}
+			if ok1 && ok2 {
+				gb = fmt.Sprintf("%d:%d", l, o)
+			} else {
+				gb = "bad"
+			}
+		}
+	}
+	for _, s := range sel.Sources {
+		if m, ok := s.(*influxql.Measurement); ok {
+			srcs = append(srcs, m.Database+"."+m.RetentionPolicy)
+		} else {
+			srcs = append(srcs, "?")
+		}
+	}
+	return fmt.Sprintf("%s;%s;%08x", strings.Join(treeOf(sel.Condition), ","), gb, crc32.ChecksumIEEE([]byte(text))), srcs
+}
+
+// ---------------------------------------------------------------------------------------------
+// op: splice
+
+func guard(f func() string) (out string) {
+	defer func() {
+		if r := recover(); r != nil {
+			out = "panic"
+		}
+	}()
+	return f()
+}
+
+func execSplice(t []string) string {
+	if len(t) != 6 {
+		return "badop"
+	}
+	toks := t[1]
+	s, _ := strconv.ParseInt(t[2], 10, 64)
+	e, _ := strconv.ParseInt(t[3], 10, 64)
+	s2, _ := strconv.ParseInt(t[4], 10, 64)
+	e2, _ := strconv.ParseInt(t[5], 10, 64)
+	cond, ok := condText(toks)
+	if !ok {
+		return "badop"
+	}
+	qs := `SELECT "v" FROM "db"."rp"."m"`
+	if toks != "-" {
+		qs += " WHERE " + cond
+	}
+	return guard(func() string {
+		// what the user's text says, by the real parser
+		uc := "err"
+		if st, err := influxql.ParseStatement(qs); err == nil {
+			if sel, ok := st.(*influxql.SelectStatement); ok {
+				uc = strings.Join(treeOf(sel.Condition), ",")
+			}
+		}
+		q, err := kapacitor.NewQuery(qs)
+		if err != nil {
+			return "nq=err uc=" + uc
+		}
+		q.SetStartTime(time.Unix(0, s).UTC())
+		q.SetStopTime(time.Unix(0, e).UTC())
+		str1 := q.String()
+		enc1, _ := encQuery(str1)
+		q1 := strings.Split(enc1, ";")[0]
+		tr := "err"
+		if st, err := influxql.ParseStatement(str1); err == nil {
+			if sel, ok := st.(*influxql.SelectStatement); ok {
+				valuer := influxql.NowValuer{Now: time.Unix(1600000000, 0).UTC()}
+				if _, r, err := influxql.ConditionExpr(sel.Condition, &valuer); err == nil {
+					tr = fmt.Sprintf("%d:%d", r.MinTimeNano(), r.MaxTimeNano())
+				}
+			}
+		}
+		out := fmt.Sprintf("nq=ok uc=%s q1=%s tr=%s", uc, q1, tr)
+		var c *kapacitor.Query
+		cl := guard(func() string {
+			var err error
+			c, err = q.Clone()
+			if err != nil {
+				return "err"
+			}
+			return "ok"
+		})
+		out += " cl=" + cl
+		if cl != "ok" {
+			return out
+		}
+		c.SetStartTime(time.Unix(0, s2).UTC())
+		c.SetStopTime(time.Unix(0, e2).UTC())
+		enc2, _ := encQuery(c.String())
+		orig := "0"
+		if q.String() == str1 {
+			orig = "1"
+		}
+		return out + " q2=" + strings.Split(enc2, ";")[0] + " orig=" + orig
+	})
+}
+
+// ---------------------------------------------------------------------------------------------
+// op: tick, livereal
+
+func execTick(t []string) string {
+	if len(t) != 4 {
+		return "badop"
+	}
+	every, _ := strconv.ParseInt(t[1], 10, 64)
+	now, _ := strconv.ParseInt(t[3], 10, 64)
+	return guard(func() string {
+		tk := kapacitor.VerifNewTimeTicker(time.Duration(every), t[2] == "1")
+		return strconv.FormatInt(tk.Next(time.Unix(0, now)).UnixNano(), 10)
+	})
+}
+
+// execLiveReal starts the real aligned ticker and reports its first n ticks relative to
+// Truncate(start time): wall-clock independent when nothing is delayed by more than every/2.
+func execLiveReal(t []string) string {
+	if len(t) != 3 {
+		return "badop"
+	}
+	ms, _ := strconv.ParseInt(t[1], 10, 64)
+	n, _ := strconv.Atoi(t[2])
+	every := time.Duration(ms) * time.Millisecond
+	var last string
+	for attempt := 0; attempt < 4; attempt++ {
+		tk := kapacitor.VerifNewTimeTicker(every, true)
+		t0 := time.Now()
+		ch := tk.Start()
+		var got []time.Time
+		timeout := time.After(every*time.Duration(n+3) + 2*time.Second)
+	loop:
+		for len(got) < n {
+			select {
+			case x := <-ch:
+				got = append(got, x)
+			case <-timeout:
+				break loop
+			}
+		}
+		go tk.Stop() // Stop waits for the ticker goroutine, which may be blocked sending: drain
+		deadline := time.After(2 * time.Second)
+	drain:
+		for {
+			select {
+			case <-ch:
+			case <-time.After(every + 20*time.Millisecond):
+				break drain
+			case <-deadline:
+				break drain
+			}
+		}
+		base := t0.Truncate(every)
+		var rel []string
+		ideal := len(got) == n
+		for i, x := range got {
+			d := x.Sub(base)
+			rel = append(rel, strconv.FormatInt(int64(d), 10))
+			if d != every*time.Duration(i+1) {
+				ideal = false
+			}
+		}
+		last = "rel=" + list(rel)
+		if ideal {
+			return last
+		}
+	}
+	return last
+}
+
+func list(xs []string) string {
+	if len(xs) == 0 {
+		return "-"
+	}
+	return strings.Join(xs, ",")
+}
+
+// ---------------------------------------------------------------------------------------------
+// op: sched — a real batch task
+
+type fakeClient struct {
+	mu   sync.Mutex
+	cmds []string
+}
+
+func (c *fakeClient) Ping(ctx context.Context) (time.Duration, string, error) { return 0, "", nil }
+func (c *fakeClient) Write(bp influxdb.BatchPoints) error                      { return nil }
+func (c *fakeClient) WriteV2(w influxdb.FluxWrite) error                        { return nil }
+func (c *fakeClient) Query(q influxdb.Query) (*influxdb.Response, error) {
+	c.mu.Lock()
+	c.cmds = append(c.cmds, q.Command)
+	c.mu.Unlock()
+	return &influxdb.Response{Results: []influxdb.Result{{Series: []imodels.Row{{
+		Name: "m", Columns: []string{"time", "v"},
+		Values: [][]interface{}{{time.Unix(5, 0).UTC(), 1.0}},
+	}}}}}, nil
+}
+func (c *fakeClient) QueryFlux(q influxdb.FluxQuery) (flux.ResultIterator, error) {
+	return nil, errors.New("no flux")
+}
+func (c *fakeClient) QueryFluxResponse(q influxdb.FluxQuery) (*influxdb.Response, error) {
+	return nil, errors.New("no flux")
+}
+func (c *fakeClient) CreateBucketV2(bucket string, org string, orgID string) error { return nil }
+func (c *fakeClient) take() []string {
+	c.mu.Lock()
+	defer c.mu.Unlock()
+	out := c.cmds
+	c.cmds = nil
+	return out
+}
+func (c *fakeClient) count() int {
+	c.mu.Lock()
+	defer c.mu.Unlock()
+	return len(c.cmds)
+}
+
+type fakeInflux struct{ c *fakeClient }
+
+func (f fakeInflux) NewNamedClient(name string) (influxdb.Client, error) { return f.c, nil }
+
+// injTicker delivers the tick times the harness injects; Next is the real ticker's.
+type injTicker struct {
+	orig kapacitor.VerifTicker
+	ch   chan time.Time
+}
+
+func (t *injTicker) Start() <-chan time.Time      { return t.ch }
+func (t *injTicker) Stop()                        {}
+func (t *injTicker) Next(now time.Time) time.Time { return t.orig.Next(now) }
+
+var (
+	tmOnce sync.Once
+	theTM  *kit.TM
+	theFC  *fakeClient
+	taskNo int
+)
+
+func backbone() (*kit.TM, *fakeClient) {
+	tmOnce.Do(func() {
+		tm, err := kit.NewTM(kit.TMOpts{})
+		if err != nil {
+			panic(err)
+		}
+		theTM = tm
+		theFC = &fakeClient{}
+		tm.TM.InfluxDBService = fakeInflux{theFC}
+	})
+	return theTM, theFC
+}
+
+func durLit(ns int64) string {
+	// TICKscript has no ns unit: all configured durations are whole microseconds
+	return fmt.Sprintf("%du", ns/1000)
+}
+
+type schedCfg struct {
+	toks                     string
+	per, off, ev             int64
+	al                       bool
+	cron                     string // "" or a cron expression
+	gb, gbo                  int64
+	ag                       bool
+	fill                     string
+	tags                     string
+	decl                     []kapacitor.DBRP
+	from                     [][]string // per query node: db.rp sources
+	start                    int64
+	stop                     int64
+	stopZero                 bool
+	ticks                    []int64
+	every0, negEvery, noSche bool
+}
+
+func parseKV(t []string) map[string]string {
+	m := map[string]string{}
+	for _, x := range t {
+		if i := strings.Index(x, "="); i > 0 {
+			m[x[:i]] = x[i+1:]
+		}
+	}
+	return m
+}
+
+func cronExpr(k int64) string {
+	// k < 60: every k seconds; k >= 60 (multiple of 60): every k/60 minutes at second 0
+	if k < 60 {
+		return fmt.Sprintf("*/%d * * * * * *", k)
+	}
+	return fmt.Sprintf("0 */%d * * * * *", k/60)
+}
+
+func script(c *schedCfg) (string, bool) {
+	var b strings.Builder
+	for i, srcs := range c.from {
+		cond, ok := condText(c.toks)
+		if !ok {
+			return "", false
+		}
+		var fr []string
+		for _, s := range srcs {
+			p := strings.SplitN(s, ".", 2)
+			if len(p) != 2 {
+				return "", false
+			}
+			fr = append(fr, fmt.Sprintf(`"%s"."%s"."m%d"`, p[0], p[1], i))
+		}
+		q := `SELECT mean("v") FROM ` + strings.Join(fr, ", ")
+		if c.toks != "-" {
+			q += " WHERE " + cond
+		}
+		q = strings.ReplaceAll(q, `\`, `\\`)
+		q = strings.ReplaceAll(q, `'`, `\'`)
+		fmt.Fprintf(&b, "var q%d = batch\n\t|query('%s')\n", i, q)
+		fmt.Fprintf(&b, "\t\t.period(%s)\n", durLit(c.per))
+		if c.ev != 0 {
+			fmt.Fprintf(&b, "\t\t.every(%s)\n", durLit(c.ev))
+		}
+		if c.cron != "" {
+			fmt.Fprintf(&b, "\t\t.cron('%s')\n", c.cron)
+		}
+		if c.off != 0 {
+			fmt.Fprintf(&b, "\t\t.offset(%s)\n", durLit(c.off))
+		}
+		if c.al {
+			b.WriteString("\t\t.align()\n")
+		}
+		var dims []string
+		if c.gb != 0 {
+			if c.gbo != 0 {
+				dims = append(dims, fmt.Sprintf("time(%s, %s)", durLit(c.gb), durLit(c.gbo)))
+			} else {
+				dims = append(dims, fmt.Sprintf("time(%s)", durLit(c.gb)))
+			}
+		}
+		switch c.tags {
+		case "1":
+			dims = append(dims, "'host'")
+		case "2":
+			dims = append(dims, "*")
+		}
+		if len(dims) > 0 {
+			fmt.Fprintf(&b, "\t\t.groupBy(%s)\n", strings.Join(dims, ", "))
+		}
+		if c.ag {
+			b.WriteString("\t\t.alignGroup()\n")
+		}
+		switch c.fill {
+		case "0":
+			b.WriteString("\t\t.fill(0)\n")
+		case "null", "none", "previous", "linear":
+			fmt.Fprintf(&b, "\t\t.fill('%s')\n", c.fill)
+		}
+	}
+	return b.String(), true
+}
+
+func errKind(err error) string {
+	if err == nil {
+		return "ok"
+	}
+	m := err.Error()
+	switch {
+	case strings.Contains(m, "is not allowed to request data from"):
+		return "err:dbrp"
+	case strings.Contains(m, "must not set both") || strings.Contains(m, "must define one of") || strings.Contains(m, "must must non-negative"):
+		return "err:sched"
+	}
+	return "err:other"
+}
+
+func execSched(t []string) string {
+	kv := parseKV(t[1:])
+	geti := func(k string) int64 { v, _ := strconv.ParseInt(kv[k], 10, 64); return v }
+	c := &schedCfg{toks: kv["toks"], per: geti("per"), off: geti("off"), ev: geti("ev"), al: kv["al"] == "1",
+		gb: geti("gb"), gbo: geti("gbo"), ag: kv["ag"] == "1", fill: kv["fill"], tags: kv["tags"], start: geti("start")}
+	if c.toks == "" {
+		return "badop"
+	}
+	if k := geti("cron"); k != 0 {
+		c.cron = cronExpr(k)
+	}
+	if kv["stop"] == "z" {
+		c.stopZero = true
+	} else {
+		c.stop = geti("stop")
+	}
+	for _, d := range strings.Split(kv["decl"], ",") {
+		p := strings.SplitN(d, ".", 2)
+		if len(p) == 2 {
+			c.decl = append(c.decl, kapacitor.DBRP{Database: p[0], RetentionPolicy: p[1]})
+		}
+	}
+	for _, n := range strings.Split(kv["from"], "/") {
+		c.from = append(c.from, strings.Split(n, ","))
+	}
+	if kv["ticks"] != "-" && kv["ticks"] != "" {
+		for _, x := range strings.Split(kv["ticks"], ",") {
+			v, _ := strconv.ParseInt(x, 10, 64)
+			c.ticks = append(c.ticks, v)
+		}
+	}
+	if len(c.decl) == 0 || len(c.from) == 0 {
+		return "badop"
+	}
+	scr, ok := script(c)
+	if !ok {
+		return "badop"
+	}
+	tm, fc := backbone()
+	taskNo++
+	id := fmt.Sprintf("c16t%d", taskNo)
+	return guard(func() string {
+		task, err := tm.TM.NewTask(id, scr, kapacitor.BatchTask, c.decl, 0, nil)
+		if err != nil {
+			if os.Getenv("VERIF_LOG") != "" {
+				fmt.Fprintln(os.Stderr, scr, err)
+			}
+			return "st=err:script"
+		}
+		fc.take()
+		et, err := tm.TM.StartTask(task)
+		if err != nil {
+			return "st=" + errKind(err)
+		}
+		defer tm.TM.StopTask(id)
+		var inj []*injTicker
+		kapacitor.VerifWrapQueryTickers(et, func(i int, o kapacitor.VerifTicker) kapacitor.VerifTicker {
+			x := &injTicker{orig: o, ch: make(chan time.Time)}
+			inj = append(inj, x)
+			return x
+		})
+		stop := time.Unix(0, c.stop)
+		if c.stopZero {
+			stop = time.Time{}
+		}
+		hist := func() (string, string, string) {
+			bq, err := et.BatchQueries(time.Unix(0, c.start), stop)
+			if err != nil {
+				return errKind(err), "-", "-"
+			}
+			var qs []string
+			srcSet := map[string]bool{}
+			for i, b := range bq {
+				for _, q := range b.Queries {
+					enc, srcs := encQuery(q.String())
+					if i == 0 {
+						qs = append(qs, enc)
+					}
+					for _, s := range srcs {
+						srcSet[s] = true
+					}
+				}
+			}
+			return "ok", strings.Join(orDash(qs), "|"), list(sortedKeys(srcSet))
+		}
+		h, H, hsrc := hist()
+		out := fmt.Sprintf("st=ok h=%s H=%s hsrc=%s", h, H, hsrc)
+		// live
+		err = et.StartBatching()
+		out += " l=" + errKind(err)
+		if err != nil {
+			return out
+		}
+		want := 0
+		for _, x := range inj {
+			for _, tk := range c.ticks {
+				select {
+				case x.ch <- time.Unix(0, tk):
+					want++
+				case <-time.After(3 * time.Second):
+				}
+			}
+		}
+		for w := 0; fc.count() < want && w < 3000; w++ {
+			time.Sleep(time.Millisecond)
+		}
+		var L []string
+		srcSet := map[string]bool{}
+		for _, cmd := range fc.take() {
+			enc, srcs := encQuery(cmd)
+			// node 0 queries measurement m0
+			if strings.Contains(cmd, `.m0`) {
+				L = append(L, enc)
+			}
+			for _, s := range srcs {
+				srcSet[s] = true
+			}
+		}
+		out += fmt.Sprintf(" L=%s lsrc=%s", strings.Join(orDash(L), "|"), list(sortedKeys(srcSet)))
+		h2, H2, _ := hist()
+		return out + fmt.Sprintf(" h2=%s H2=%s", h2, H2)
+	})
+}
+
+func orDash(xs []string) []string {
+	if len(xs) == 0 {
+		return []string{"-"}
+	}
+	return xs
+}
+
+func sortedKeys(m map[string]bool) []string {
+	var ks []string
+	for k := range m {
+		ks = append(ks, k)
+	}
+	sort.Strings(ks)
+	return ks
+}
+
+// ---------------------------------------------------------------------------------------------
+
+func execLine(line string) string {
+	if i := strings.Index(line, " => "); i >= 0 {
+		line = line[:i]
+	}
+	t := strings.Fields(line)
+	if len(t) == 0 {
+		return line
+	}
+	var obs string
+	switch t[0] {
+	case "splice":
+		obs = execSplice(t)
+	case "tick":
+		obs = execTick(t)
+	case "livereal":
+		obs = execLiveReal(t)
+	case "sched":
+		obs = execSched(t)
+	default:
+		obs = "badop"
+	}
+	return line + " => " + obs
+}
+
+func emit(out *kit.Out, id string, lines []string) {
+	out.Line("case", id)
+	for _, l := range lines {
+		out.Line(execLine(l))
+	}
+	out.Line("end")
+	out.Flush()
+}
+
+// Run: `vh-c16 -seed S -n N [-tier thorough]` generates; `vh-c16 -ops file` re-executes the cases of a file.
+func Run(args []string) int {
+	f := kit.ParseFlags(args)
+	out := kit.NewOut()
+	defer out.Flush()
+	defer func() {
+		if theTM != nil {
+			theTM.Close()
+		}
+	}()
+	if f.Ops != "" {
+		lines, err := kit.ReadLines(f.Ops)
+		if err != nil {
+			fmt.Fprintln(os.Stderr, err)
+			return 2
+		}
+		var cur []string
+		id := ""
+		for _, l := range lines {
+			t := strings.Fields(l)
+			switch {
+			case len(t) == 2 && t[0] == "case":
+				id, cur = t[1], nil
+			case len(t) == 1 && t[0] == "end":
+				emit(out, id, cur)
+			default:
+				cur = append(cur, l)
+			}
+		}
+		return 0
+	}
+	generate(out, f)
 	return 0
 }
